@@ -349,7 +349,10 @@ class SymInt:
     def __repr__(self):
         return f"<{self.e}>"
 
-    __str__ = __repr__
+    def __str__(self):
+        if self.cval is not None:
+            return str(self.cval)
+        return SymStr(self)
 
     def __format__(self, spec):
         return repr(self)
@@ -365,6 +368,46 @@ class SymInt:
 
     def is_integer(self):
         return True
+
+
+class SymStr(str):
+    """str(SymInt): models exactly one fact - decimal rendering of integers is
+    injective.  Equality/hash defer to the wrapped SymInt; int() (through the
+    sint shadow) maps back to it."""
+
+    def __new__(cls, sym):
+        o = str.__new__(cls, f"<{sym.e}>")
+        o.sym = sym
+        return o
+
+    def __hash__(self):
+        return K ^ 0x5757
+
+    def __eq__(self, o):
+        if isinstance(o, SymStr):
+            return self.sym == o.sym
+        if isinstance(o, str):
+            try:
+                v = int(o)
+            except ValueError:
+                return False
+            if str(v) != o:
+                return False
+            return self.sym == v
+        return False
+
+    def __ne__(self, o):
+        r = self.__eq__(o)
+        return ~r if isinstance(r, SymBool) else not r
+
+    def __lt__(self, o):
+        raise SymxUnsupported("ordering of rendered symbolic integers")
+
+    def __deepcopy__(self, memo):
+        return self
+
+    def __reduce__(self):
+        return (SymStr, (self.sym,))
 
 
 def _unpickle_symint(i):
